@@ -144,6 +144,8 @@ pub fn run(ctx: &mut Ctx) {
   let mut overflows = 0u64;
   let mut glitches = 0u64;
   let mut accept_div = 0u64;
+  let mut long_batches = 0u64;
+  let mut very_long_batches = 0u64;
   let mut unit = 0u64;
 
   // ---- (1) every TAC value x every divider phase x batch lengths around every period
@@ -164,11 +166,19 @@ pub fn run(ctx: &mut Ctx) {
         let phase = chunk * 1024 + p;
         // long batches on a sample of phases only (the implementation is per-clock)
         for (li, &n) in lengths.iter().enumerate() {
-          if n > 300 && !(p % 64 == (li as u32 * 7) % 64) {
-            continue;
-          }
-          if n > 5000 && !(p % 512 == (li as u32 * 37) % 512) {
-            continue;
+          // (one residue class per length; the two classes are independent of each
+          // other - an earlier version required both at once, which no length > 5000
+          // could satisfy, so the very long batches silently never ran)
+          if n > 5000 {
+            if p % 512 != (li as u32 * 37) % 512 {
+              continue;
+            }
+            very_long_batches += 1;
+          } else if n > 300 {
+            if p % 64 != (li as u32 * 7) % 64 {
+              continue;
+            }
+            long_batches += 1;
           }
           let tima0 = rng.edgy_u8();
           let tma0 = rng.edgy_u8();
@@ -262,7 +272,13 @@ pub fn run(ctx: &mut Ctx) {
         1 => Act::Tima(rng.edgy_u8()),
         2 => Act::Tma(rng.edgy_u8()),
         3 | 4 => Act::Tac(rng.u8()),
-        5 => Act::Elapse(4 * (1 + rng.below(1200) as u32)),
+        5 => {
+          if rng.chance(1, 8) {
+            Act::Elapse(60_000 + rng.below(150_000) as u32) // more than one revolution of the 16-bit divider
+          } else {
+            Act::Elapse(4 * (1 + rng.below(1200) as u32))
+          }
+        }
         6 => Act::Elapse(1 + rng.below(20) as u32),
         _ => Act::Elapse(1 + rng.below(3000) as u32),
       });
@@ -284,7 +300,7 @@ pub fn run(ctx: &mut Ctx) {
         Act::Tima(v) => r.tima = *v,
         Act::Tma(v) => r.tma = *v,
         Act::Tac(v) => irq = r.write_tac(*v),
-        Act::Elapse(n) => irq = r.run(*n),
+        Act::Elapse(n) => irq = if *n > 5000 { r.run_closed(*n) } else { r.run(*n) },
       }
       want.push(((r.div >> 8) as u8, r.tima, irq, ambiguous));
     }
@@ -400,6 +416,8 @@ pub fn run(ctx: &mut Ctx) {
   ctx.count("evaluations", evaluations);
   ctx.count("overflows-expected", overflows);
   ctx.count("tac-glitch-increments", glitches);
+  ctx.count("single-batches:301-5000-clocks", long_batches);
+  ctx.count("single-batches:over-5000-clocks", very_long_batches);
   ctx.count("accept-set:actions-after-div-write-with-selected-bit-high", accept_div);
 }
 
